@@ -5,4 +5,5 @@
 pub mod envmod;
 pub mod fsnap;
 pub mod layers;
+pub mod tomlgen;
 pub mod util;
